@@ -47,16 +47,19 @@ pub fn thresholds(prof: &Profile) -> Vec<f64> {
 /// check one (game, profile, threshold); returns the class of the first failed clause
 pub fn check_case(ctx: &Ctx, tree: &Tree, prof: &Profile, thresh: f64) -> bool {
     let replay = json!({"tree": tree.to_replay(), "profile": profile_json(prof), "threshold": thresh});
-    let res = guarded(|| -> Result<(Profile, Profile), String> {
+    let res = guarded(|| -> Result<(Profile, Profile, Profile), String> {
         let game = build(tree).map_err(|e| format!("valid game rejected: {:?}", e))?;
         let mut strat = inject(&game, tree, prof).map_err(|e| format!("valid profile rejected: {:?}", e))?;
+        // the profile as the library holds it (importing normalises: a non-dyadic profile can move
+        // by an ulp); every clause below is about THIS profile
+        let stored = read_profile(tree, &strat)?;
         strat.truncate(thresh);
         let once = read_profile(tree, &strat)?;
         strat.truncate(thresh);
         let twice = read_profile(tree, &strat)?;
-        Ok((once, twice))
+        Ok((stored, once, twice))
     });
-    let (once, twice) = match res {
+    let (stored, once, twice) = match res {
         Err(msg) => {
             ctx.violation("panic", &msg, replay);
             return false;
@@ -65,8 +68,9 @@ pub fn check_case(ctx: &Ctx, tree: &Tree, prof: &Profile, thresh: f64) -> bool {
             ctx.violation("named-view-broken", &format!("{} after truncate({}) on {}", msg, thresh, tree.show()), replay);
             return false;
         }
-        Ok(Ok(pair)) => pair,
+        Ok(Ok(triple)) => triple,
     };
+    let prof = &stored;
     let mut ok = true;
     let min_pos = prof
         .iter()
@@ -115,6 +119,13 @@ pub fn check_case(ctx: &Ctx, tree: &Tree, prof: &Profile, thresh: f64) -> bool {
     ok
 }
 
+/// the profile as the library holds it after import
+pub fn stored_profile(tree: &Tree, prof: &Profile) -> Option<Profile> {
+    let game = build(tree).ok()?;
+    let strat = inject(&game, tree, prof).ok()?;
+    read_profile(tree, &strat).ok()
+}
+
 pub fn run(ctx: &Ctx) -> i32 {
     let bounds = if ctx.thorough() {
         Bounds { max_internal: 4, max_arity: 3, max_leaves: 7, chance_infosets: false, degenerate: true }
@@ -141,8 +152,30 @@ pub fn run(ctx: &Ctx) -> i32 {
             }
         }
     });
+    // wide infosets with non-dyadic probabilities: uniform over k actions (k = 2..24; the
+    // left-to-right sum of k copies of 1/k is just below or above 1 for many k), a linear ramp and a
+    // geometric profile, each at every threshold of the derived set
+    let wide: Vec<usize> = (2..=24).collect();
+    wide.par_iter().for_each(|&k| {
+        let tree = Tree::P(0, "w".to_string(), (0..k).map(|i| (format!("a{:02}", i), Tree::T(i as f64))).collect());
+        let ramp: f64 = (1..=k).map(|i| i as f64).sum();
+        let geo: f64 = (0..k).map(|i| 0.5f64.powi(i as i32)).sum();
+        let shapes: Vec<Vec<f64>> = vec![vec![1.0 / k as f64; k], (1..=k).map(|i| i as f64 / ramp).collect(), (0..k).map(|i| 0.5f64.powi(i as i32) / geo).collect()];
+        for probs in shapes {
+            let prof: Profile = [[("w".to_string(), probs)].into_iter().collect(), Default::default()];
+            let stored = match stored_profile(&tree, &prof) {
+                Some(p) => p,
+                None => continue,
+            };
+            for thresh in thresholds(&stored) {
+                check_case(ctx, &tree, &prof, thresh);
+                ctx.case(1, true);
+                ctx.count("wide_infoset_cases", 1);
+            }
+        }
+    });
     ctx.finish(
-        "every valid skeleton (one payoff fill; payoffs are irrelevant to truncate) and every curated family game x every grid profile x every threshold of the derived set (below, at, just above, between every distinct probability; -1, 0, 1, 2, 1e300); non-trivial = the profile has an interior probability",
+        "every valid skeleton (one payoff fill; payoffs are irrelevant to truncate) and every curated family game x every grid profile x every threshold of the derived set (below, at, just above, between every distinct probability; -1, 0, 1, 2, 1e300), plus one infoset of 2..24 actions with uniform / ramp / geometric probabilities; non-trivial = the profile has an interior probability",
         true,
         "E-INPUT: Strategies::truncate applied to every enumerated (game, profile, threshold), read back through as_named, compared clause by clause with the statement",
     )
